@@ -192,6 +192,46 @@ def rollout (select : Pos → Nat → R (Pos × Nat)) (eval : Pos → R Int) (ma
   | none => .error (.hang "analyze")
   | some p => rolloutLoop select eval threshold t.toMove maxRollout p k
 
+/-! ### `GetMove` with the modelled rollouts -/
+
+/-- the main loop of `GetMove` (`Tak.MCTS.loop`) with `ai.rollout(node)` **run** instead of read from the oracle:
+`roll` is `rollout` for the configured policy and evaluator, a crash of it ends `GetMove`.  The random cursor `k`
+is threaded through; the values the rollouts returned are recorded (`vals`, one per iteration, 0 where the loop
+skips the rollout of a proven node), so that `Tak.MCTS.loop` can replay the run (`C04.loopR_replay`). -/
+def loopR (basis : Array W) (o : Oracle) (roll : Pos → Nat → R (Int × Nat)) :
+    Nat → Nat → Arena → Nat → R (Arena × Nat × List Int)
+  | 0, _, a, k => .ok (a, k, [])
+  | left+1, j, a, k =>
+    let node := descend (o.pick j) (a.size + 1) a 0
+    let a := populate basis a node
+    if provenAt a 0 ≠ 0 then .ok (a, k, []) else
+    let r : R (Int × Nat) :=
+      if provenAt a node == 0 then
+        match a[node]? with
+        | some nd => roll nd.pos k
+        | none => .ok (0, k)     -- no such node: `descend` only returns indices of the arena
+      else .ok (0, k)
+    match r with
+    | .error e => .error e
+    | .ok (val, k') =>
+      match loopR basis o roll left (j+1) (update (a.size + 1) a (some node) val) k' with
+      | .error e => .error e
+      | .ok (a', k'', vals) => .ok (a', k'', val :: vals)
+
+/-- the oracle that replays recorded rollout values, iteration by iteration -/
+def Oracle.replay (o : Oracle) (j0 : Nat) (vals : List Int) : Oracle :=
+  { o with rollout := fun j _ => vals.getD (j - j0) 0 }
+
+/-- `MonteCarloAI.GetMove` with the rollouts run: the loop with real rollouts (a crash of one is a crash of
+`GetMove`), then the final selection of `Tak.MCTS.getMove` on the tree that loop built (`getMove` under the
+replaying oracle rebuilds exactly that tree: `C04.loopR_replay`). -/
+def getMoveR (basis : Array W) (forceCorners : Bool) (o : Oracle) (roll : Pos → Nat → R (Int × Nat)) (p : Pos)
+    (k : Nat) : R Move :=
+  if forceCorners ∧ p.move < 2 then cornerMove p o.bits else
+  match loopR basis o roll o.iterations 0 #[{ pos := p, move := { x := 0, y := 0, type := 0, slides := 0 } }] k with
+  | .error e => .error e
+  | .ok (_, _, vals) => getMove basis forceCorners (o.replay 0 vals) p
+
 /-! ### the buffer ping-pong, on buffer identities -/
 
 /-- what `Select` does to storage: the successor lives in the policy's scratch `alloc`, and the buffer of the
